@@ -172,6 +172,7 @@ Inductive event :=
 | EvUser (off bytes : Z) (e : end_t)      (* block handed out from the user buffer *)
 | EvShift (off bytes : Z) (e : end_t)     (* the block just handed out is moved by an alignment fix-up *)
 | EvUserFree (bytes : Z) (e : end_t)
+| EvUserRestore (top1 used : Z)           (* stack.top1 = top1; stack.used = used;  (retry loop of p?gstrf_MemInit, user space) *)
 | EvWorkFree
 | EvSys (k : nat) (bytes : Z)             (* k-th system request granted *)
 | EvSysFail (k : nat) (bytes : Z)
@@ -208,7 +209,7 @@ Definition add_log (m : mem) (e : event) : mem :=
 Inductive stop :=
 | ExitDiag      (* fprintf(stderr, "SUPERLU_MALLOC failed ...") ; exit(1)  (intMalloc / intCalloc) *)
 | Crash         (* NULL dereference *)
-| Hang.         (* loop that never terminates (fuel exhausted in the model) *)
+| Hang.         (* fuel exhausted in the model (before fix 'the retry loop gives up when nzumax < 1': a loop that never ends) *)
 
 Inductive res (A : Type) :=
 | Ok (a : A) (m : mem)
@@ -254,6 +255,13 @@ Definition umalloc (bytes : Z) (e : end_t) (m : mem) : ptr * mem :=
 
 Definition ufree (bytes : Z) (e : end_t) (m : mem) : mem :=
   add_log (set_stack m (user_free bytes e (m_stack m))) (EvUserFree bytes e).
+
+(* stack.top1 = retry_top1; stack.used = retry_used;   (p?gstrf_MemInit, retry loop, user space: since fix 'the retry
+   loop gives back exactly what the last attempt took' this replaces  ?user_free(nzumax*dword + (nzlmax+nzumax)*iword, HEAD),
+   an amount computed as if ucol, lsub and usub had all been granted -- finding C14-overfree) *)
+Definition urestore (top1 used : Z) (m : mem) : mem :=
+  let s := m_stack m in
+  add_log (set_stack m (mkStack (s_size s) used top1 (s_top2 s))) (EvUserRestore top1 used).
 
 (* p?gstrf_SetupSpace *)
 Definition setup_space (lwork : Z) (m : mem) : mem :=
@@ -356,7 +364,8 @@ Fixpoint alloc_ints_sys (szs : list Z) (m : mem) : res (list ptr) :=
   | s :: t => bind (int_malloc s m) (fun p m1 => bind (alloc_ints_sys t m1) (fun ps m2 => Ok (p :: ps) m2))
   end.
 
-(* user space: the results are NOT tested by the C code *)
+(* user space: the nine requests are issued one after the other, whatever their results; the results are tested
+   together afterwards (mi_prefix; since fix 'MemInit tests the nine integer arrays', finding C14-intarrays) *)
 Fixpoint alloc_ints_user (szs : list Z) (m : mem) : list ptr * mem :=
   match szs with
   | [] => ([], m)
@@ -372,29 +381,32 @@ Inductive mi_result :=
 | MIfail (code : Z)
 | MIok (g : glu).
 
-(* the  while ( !ucol || !lsub || !usub )  retry loop; fuel = iterations still allowed *)
+(* the  while ( !ucol || !lsub || !usub )  retry loop; fuel = iterations still allowed.
+   rtop1, rused = the locals retry_top1, retry_used: stack.top1 and stack.used as they were right after
+   lusup = p?gstrf_expand(&nzlumax, LUSUP, ...), i.e. before ucol, lsub and usub were requested. *)
 Inductive loop_result :=
 | RLok (ucol lsub usub : ptr) (nzumax nzlmax : Z)
 | RLgiveup (nzumax nzlmax : Z).        (* "Not enough memory to perform factorization." *)
 
-Fixpoint retry_loop (fuel : nat) (annz : Z) (ucol lsub usub : ptr) (nzumax nzlmax : Z) (m : mem)
+Fixpoint retry_loop (fuel : nat) (annz : Z) (ucol lsub usub : ptr) (nzumax nzlmax : Z) (rtop1 rused : Z) (m : mem)
   : res loop_result :=
   if negb (is_null ucol || is_null lsub || is_null usub) then Ok (RLok ucol lsub usub nzumax nzlmax) m
   else match fuel with
-       | O => Stop Hang m
+       | O => Stop Hang m          (* fuel exhausted: cannot happen with fuel > log2(nzumax), UstackProofs.retry_loop_no_hang *)
        | S fuel' =>
            let m1 := match m_space m with
                      | SYSTEM => sys_free usub (sys_free lsub (sys_free ucol m))
-                     | USER => ufree (nzumax * dword c + (nzlmax + nzumax) * iword) HEAD m
+                     | USER => urestore rtop1 rused m       (* stack.top1 = retry_top1; stack.used = retry_used; *)
                      end in
            let nzumax' := nzumax / 2 in           (* operands are non-negative: C and Coq division agree *)
            let nzlmax' := nzlmax / 2 in
-           if nzumax' <? annz / 2 then Ok (RLgiveup nzumax' nzlmax') m1
+           (* if ( nzumax < annz/2 || nzumax < 1 )   (annz/2 may be 0: finding C14-hang) *)
+           if (nzumax' <? annz / 2) || (nzumax' <? 1) then Ok (RLgiveup nzumax' nzlmax') m1
            else
              bind (expand0 nzumax' c_UCOL m1) (fun ucol' m2 =>
              bind (expand0 nzlmax' c_LSUB m2) (fun lsub' m3 =>
              bind (expand0 nzumax' c_USUB m3) (fun usub' m4 =>
-               retry_loop fuel' annz ucol' lsub' usub' nzumax' nzlmax' m4)))
+               retry_loop fuel' annz ucol' lsub' usub' nzumax' nzlmax' rtop1 rused m4)))
        end.
 
 (* "Guess amount of storage needed by L\U factors" *)
@@ -412,20 +424,34 @@ Definition ensure_expanders (m : mem) : mem :=
   end.
 
 (* first factorization, lwork <> -1: everything up to the retry loop *)
-Record mi_pre := mkPre { p_ia : list ptr; p_lusup : ptr; p_ucol : ptr; p_lsub : ptr; p_usub : ptr }.
+Record mi_pre := mkPre { p_ia : list ptr; p_lusup : ptr; p_ucol : ptr; p_lsub : ptr; p_usub : ptr;
+                         p_top1 : Z; p_used : Z      (* retry_top1, retry_used *) }.
 
-Definition mi_prefix (a : mi_args) (m : mem) : res mi_pre :=
+(* either the early return "work[] cannot even hold the pointer arrays" (user space) or the state before the loop *)
+Inductive pre_result :=
+| PreFail (code : Z)
+| PreOk (pre : mi_pre).
+
+Definition mi_prefix (a : mi_args) (m : mem) : res pre_result :=
   let n := a_n a in
   let m := setup_space (a_lwork a) m in
   bind (match m_space m with
-        | SYSTEM => alloc_ints_sys (int_array_sizes n) m
-        | USER => let '(ps, m1) := alloc_ints_user (int_array_sizes n) m in Ok ps m1
-        end) (fun ia m =>
+        | SYSTEM => bind (alloc_ints_sys (int_array_sizes n) m) (fun ps m1 => Ok (Some ps) m1)
+        | USER => let '(ps, m1) := alloc_ints_user (int_array_sizes n) m in
+                  (* if ( !xsup || !xsup_end || ... || !xusub_end ) return (memory_use(nzlmax, nzumax, nzlumax) + n); *)
+                  if existsb is_null ps then Ok None m1 else Ok (Some ps) m1
+        end) (fun oia m =>
+  match oia with
+  | None => Ok (PreFail (f32 (memory_use n (nzlmax0 a) (nzumax0 a) (nzlumax0 a) + f32 n))) m
+  | Some ia =>
   bind (expand0 (nzlumax0 a) c_LUSUP m) (fun lusup m =>
+  let rtop1 := s_top1 (m_stack m) in             (* retry_top1 = stack.top1; *)
+  let rused := s_used (m_stack m) in             (* retry_used = stack.used; *)
   bind (expand0 (nzumax0 a) c_UCOL m) (fun ucol m =>
   bind (expand0 (nzlmax0 a) c_LSUB m) (fun lsub m =>
   bind (expand0 (nzumax0 a) c_USUB m) (fun usub m =>
-    Ok (mkPre ia lusup ucol lsub usub) m))))).
+    Ok (PreOk (mkPre ia lusup ucol lsub usub rtop1 rused)) m))))
+  end).
 
 (* after the loop *)
 Definition mi_finish (a : mi_args) (pre : mi_pre) (r : loop_result) (m : mem) : res mi_result :=
@@ -471,9 +497,14 @@ Definition mem_init (fuel : nat) (a : mi_args) (m0 : mem) : res mi_result :=
     if a_lwork a =? -1 then
       Ok (MIquery (query_estimate n (a_w a) (a_nprocs a) (nzlmax0 a) (nzumax0 a) (nzlumax0 a))) m
     else
-      bind (mi_prefix a m) (fun pre m =>
-      bind (retry_loop fuel (a_annz a) (p_ucol pre) (p_lsub pre) (p_usub pre) (nzumax0 a) (nzlmax0 a) m)
-           (fun r m => mi_finish a pre r m))
+      bind (mi_prefix a m) (fun pr m =>
+      match pr with
+      | PreFail code => Ok (MIfail code) m
+      | PreOk pre =>
+          bind (retry_loop fuel (a_annz a) (p_ucol pre) (p_lsub pre) (p_usub pre) (nzumax0 a) (nzlmax0 a)
+                           (p_top1 pre) (p_used pre) m)
+               (fun r m => mi_finish a pre r m)
+      end)
   else
     (* refact == YES: arrays are those of the previous factorization *)
     match a_prev a with
